@@ -6,6 +6,9 @@
 // reused image buffer and ONE reused file (and adds layouts whose mapped region does not end
 // at the end of the image) and rewrites the digest list of the object between the calls (buffers
 // kept under a shorter / longer algorithm, moved, loaded with bytes of any length).
+// Images on which more than one layout probe of CalcImageOffset answers (flash descriptor AND
+// flash map, COREBOOT area ending below / at / above the end of the BIOS region; a flash map
+// without COREBOOT area): genIFDFmap in seq.go, single calls and inside the sequences.
 // Startup ACMs: small ones in every generated FIT, 384 KiB images with an ACM of 256 KiB and more
 // (size field >= 0x10000), headers whose size field has its upper bytes set; the new ACM has the
 // declared size, a neighbouring one, or what a reader with another idea of the size field
@@ -673,7 +676,7 @@ func caseOffsetOn(im *image, view []byte, note string) {
 		var err error
 		p, _ := gal.Recover(func() { o, err = tools.CalcImageOffset(view, a) })
 		in := segInput{Image: im.Name, Layout: im.Lay, Len: len(im.Bytes), Extra: fmt.Sprintf("addr=%#x", a) + note}
-		idx := ctx.Add("offset/"+im.Lay.Kind, fmt.Sprintf("COffset %s %d %s %s", im.Lay.lit(), len(im.Bytes), gal.U(a), obsLit(p, err, gal.U(o))), in, true)
+		idx := ctx.Add("offset/"+im.Lay.kind(), fmt.Sprintf("COffset %s %d %s %s", im.Lay.lit(), len(im.Bytes), gal.U(a), obsLit(p, err, gal.U(o))), in, true)
 		// oracle: addresses inside the mapped region translate to region_end - (4GiB - addr)
 		if want, ok := im.specOff(a); ok && want >= im.RegionBeg {
 			switch {
@@ -852,7 +855,7 @@ func caseDigest(im *image, ver int, segs []seg, algIdx int) digestResult {
 			obs = fpLit(spec)
 		}
 	}
-	idx := ctx.Add(fmt.Sprintf("digest/v%d/%s/%s", ver, im.Lay.Kind, strings.ToUpper(an.name)),
+	idx := ctx.Add(fmt.Sprintf("digest/v%d/%s/%s", ver, im.Lay.kind(), strings.ToUpper(an.name)),
 		fmt.Sprintf("CDigest %d %s %s %s %s %s", ver, gal.Z(an.id), im.Lay.lit(), im.lit(), segLit(segs), obsLit(pan, err, obs)), in, true)
 	res := digestResult{ok: !pan && err == nil, digest: d}
 	switch {
@@ -957,7 +960,7 @@ func casePipeline(im *image) {
 			hasOther = true
 		}
 	}
-	idx := ctx.Add(fmt.Sprintf("create-digest/v%d/%s", ver, im.Lay.Kind),
+	idx := ctx.Add(fmt.Sprintf("create-digest/v%d/%s", ver, im.Lay.kind()),
 		fmt.Sprintf("CCreateDigest %d %s %s %s %s %s", ver, gal.ZList64(al), im.Lay.lit(), im.lit(), segLit(segs), obsLit(pan, err, gal.List(obs))), in, true)
 	digestsGood := false
 	switch {
@@ -1008,7 +1011,7 @@ func caseMatch(im *image, ver int, b *bootguard.BootGuard, segs []seg, digestsGo
 	if !pan {
 		o = "(OOk " + gal.Bool(ok) + ")"
 	}
-	idx := ctx.Add(fmt.Sprintf("match/v%d/%s", ver, im.Lay.Kind), fmt.Sprintf("CMatch %s %s %s %s", im.Lay.lit(), im.lit(), segLit(segs), o), in, true)
+	idx := ctx.Add(fmt.Sprintf("match/v%d/%s", ver, im.Lay.kind()), fmt.Sprintf("CMatch %s %s %s %s", im.Lay.lit(), im.lit(), segLit(segs), o), in, true)
 	switch {
 	case !specOK:
 		ctx.Count("match/segment-outside-image(unspecified)")
@@ -1205,7 +1208,7 @@ func caseStitchAt(im *image, path string, note string) {
 		ctx.OracleFail(idx, "StitchFITEntries panics: "+msg+note, siteStitch, in)
 		return
 	}
-	kind := im.Lay.Kind
+	kind := im.Lay.kind()
 	if im.BigACM {
 		kind += "/acm>=256KiB"
 	} else if im.BadACM {
@@ -1430,7 +1433,7 @@ func probes() {
 // ------------------------------------------------------------------ main
 
 func main() {
-	ctx = gal.New("C19", header, 150)
+	ctx = gal.New("C19", header, 160)
 	rng = ctx.Rng
 	logrus.SetOutput(os.Stderr)
 	logrus.SetLevel(logrus.ErrorLevel)
@@ -1481,6 +1484,20 @@ func main() {
 			caseDigestAndMatch(in2)
 			if !in2.NoFit {
 				caseSegments(in2)
+			}
+		}
+		// images on which more than one layout probe answers: descriptor AND flash map (COREBOOT
+		// area ending below the end of the BIOS region, a BOOTBLOCK area above it), single calls
+		if i%4 == 3 {
+			im3 := genIFDFmap(randomPlan())
+			caseOffset(im3)
+			caseDigestAndMatch(im3)
+			if !im3.NoFit {
+				caseSegments(im3)
+				if !im3.Inner {
+					casePipeline(im3)
+					caseStitch(im3)
+				}
 			}
 		}
 		// the same operations in sequences on one object / one buffer / one file (seq.go)
